@@ -333,3 +333,137 @@ Qed.
 Lemma avc_confrec_decode x :
   confrec_syntax_valid x = true -> decode_confrec (ser_confrec x) = Ok (expected_confrec x).
 Proof. intros Hv. rewrite (ser_confrec_eq x Hv). apply avc_confrec_decode_bytes. exact Hv. Qed.
+
+(* ------------------------------------------------------------------ Size / Encode *)
+Definition syntax_of (a : confrec) : confrec_syntax :=
+  mkConfSyn (cr_profile a) (cr_compat a) (cr_level a) (cr_sps a) (cr_pps a) (cr_chroma a) (cr_bdl a) (cr_bdc a).
+
+Lemma fsw_put_ok out cap e bs :
+  lenN out + lenN bs <= cap -> fsw_put (mkFsw out cap e) bs = mkFsw (out ++ bs) cap e.
+Proof. intros H. unfold fsw_put. cbn [fw_out fw_cap fw_err]. replace (cap <? lenN out + lenN bs) with false by lia. reflexivity. Qed.
+
+Lemma encode_nalus_ok : forall l out cap,
+  forallb ps_ok l = true -> lenN out + lenN (flat_map ser_ps l) <= cap ->
+  encode_nalus (mkFsw out cap false) l = mkFsw (out ++ flat_map ser_ps l) cap false.
+Proof.
+  induction l as [|n t IH]; intros out cap Hok Hc.
+  - cbn [encode_nalus fold_left flat_map]. rewrite app_nil_r. reflexivity.
+  - cbn [forallb] in Hok. apply andb_prop in Hok. destruct Hok as [Hn Ht].
+    unfold ps_ok in Hn. apply andb_prop in Hn. destruct Hn as [Hl _].
+    change (encode_nalus (mkFsw out cap false) (n :: t))
+      with (encode_nalus (fsw_bytes (fsw_u16 (mkFsw out cap false) (lenN n mod 65536)) n) t).
+    cbn [flat_map] in Hc |- *. rewrite lenN_app in Hc. unfold ser_ps in Hc at 1. rewrite lenN_app in Hc.
+    change (lenN [lenN n / 256; lenN n mod 256]) with 2 in Hc.
+    rewrite (N.mod_small (lenN n) 65536) by lia.
+    unfold fsw_u16, fsw_bytes.
+    rewrite fsw_put_ok by (change (lenN [lenN n / 256; lenN n mod 256]) with 2; lia).
+    rewrite fsw_put_ok by (rewrite lenN_app; change (lenN [lenN n / 256; lenN n mod 256]) with 2; lia).
+    rewrite IH by (try assumption; rewrite !lenN_app; change (lenN [lenN n / 256; lenN n mod 256]) with 2; lia).
+    f_equal. unfold ser_ps. rewrite <- !app_assoc. reflexivity.
+Qed.
+
+Lemma nalus_size_eq l : nalus_size l = lenN (flat_map ser_ps l).
+Proof.
+  unfold nalus_size.
+  assert (G : forall l acc, fold_left (fun acc n => acc + (2 + lenN n)) l acc = acc + lenN (flat_map ser_ps l)).
+  { induction l0 as [|n t IH]; intros acc; cbn [fold_left flat_map]; [rewrite lenN_nil; lia|].
+    rewrite IH. rewrite lenN_app. unfold ser_ps. rewrite lenN_app.
+    change (lenN [lenN n / 256; lenN n mod 256]) with 2. lia. }
+  rewrite G. lia.
+Qed.
+
+Lemma lor_224 k : k < 32 -> N.lor k 224 = 224 + k.
+Proof. revert k. apply (small_cases _ 32). intros k Hk. do 32 (destruct k as [|k]; [reflexivity|]). lia. Qed.
+Lemma lor_252 k : k < 4 -> N.lor 252 k = 252 + k.
+Proof. revert k. apply (small_cases _ 4). intros k Hk. do 4 (destruct k as [|k]; [reflexivity|]). lia. Qed.
+Lemma lor_248 k : k < 8 -> N.lor 248 k = 248 + k.
+Proof. revert k. apply (small_cases _ 8). intros k Hk. do 8 (destruct k as [|k]; [reflexivity|]). lia. Qed.
+
+Ltac len_side := rewrite ?lenN_app; repeat rewrite lenN_cons; rewrite ?lenN_nil; lia.
+
+Lemma avc_confrec_encode a :
+  confrec_syntax_valid (syntax_of a) = true -> cr_num_sps_ext a = 0 -> cr_no_trailing a = false ->
+  encode_confrec a = Ok (ser_confrec_bytes (syntax_of a))
+  /\ confrec_size a = lenN (ser_confrec_bytes (syntax_of a)).
+Proof.
+  intros Hv He Hn. unfold confrec_syntax_valid, syntax_of in Hv.
+  cbn [AVCProfileIndication profile_compatibility AVCLevelIndication sequenceParameterSetNALUnits
+       pictureParameterSetNALUnits chroma_format cr_bit_depth_luma_minus8 cr_bit_depth_chroma_minus8] in Hv.
+  split_all.
+  assert (Hsz : confrec_size a = lenN (ser_confrec_bytes (syntax_of a))).
+  { unfold confrec_size, ser_confrec_bytes, ser_trailer, syntax_of.
+    cbn [AVCProfileIndication profile_compatibility AVCLevelIndication sequenceParameterSetNALUnits
+         pictureParameterSetNALUnits chroma_format cr_bit_depth_luma_minus8 cr_bit_depth_chroma_minus8].
+    rewrite !nalus_size_eq, Hn, no_trailer_has_trailer, !lenN_app.
+    destruct (has_trailer (cr_profile a)); cbn [negb]; unfold lenN; cbn [length]; lia. }
+  split; [|exact Hsz].
+  unfold encode_confrec. rewrite Hsz.
+  set (cap := lenN (ser_confrec_bytes (syntax_of a))).
+  assert (Hcap : cap = 6 + lenN (flat_map ser_ps (cr_sps a)) + 1 + lenN (flat_map ser_ps (cr_pps a))
+                       + (if has_trailer (cr_profile a) then 4 else 0)).
+  { unfold cap, ser_confrec_bytes, ser_trailer, syntax_of.
+    cbn [AVCProfileIndication profile_compatibility AVCLevelIndication sequenceParameterSetNALUnits
+         pictureParameterSetNALUnits chroma_format cr_bit_depth_luma_minus8 cr_bit_depth_chroma_minus8].
+    rewrite !lenN_app. destruct (has_trailer (cr_profile a)); unfold lenN; cbn [length]; lia. }
+  assert (Hcap2 : 6 + lenN (flat_map ser_ps (cr_sps a)) + 1 + lenN (flat_map ser_ps (cr_pps a)) <= cap)
+    by (rewrite Hcap; destruct (has_trailer (cr_profile a)); lia).
+  unfold encode_sw, fsw_new, fsw_u8. cbv zeta.
+  rewrite (u8_id (lenN (cr_sps a))) by lia. rewrite (u8_id (lenN (cr_pps a))) by lia.
+  rewrite lor_224 by lia.
+  do 6 (rewrite fsw_put_ok by len_side).
+  rewrite encode_nalus_ok by (try assumption; len_side).
+  rewrite fsw_put_ok by len_side.
+  rewrite encode_nalus_ok by (try assumption; len_side).
+  rewrite no_trailer_has_trailer, Hn, He.
+  unfold ser_confrec_bytes, ser_trailer, syntax_of.
+  cbn [AVCProfileIndication profile_compatibility AVCLevelIndication sequenceParameterSetNALUnits
+       pictureParameterSetNALUnits chroma_format cr_bit_depth_luma_minus8 cr_bit_depth_chroma_minus8].
+  destruct (has_trailer (cr_profile a)); cbn [negb].
+  - rewrite lor_252, !lor_248 by lia.
+    do 4 (rewrite fsw_put_ok by len_side).
+    cbn [fw_err fw_out]. f_equal. cbn [app]. rewrite <- !app_assoc. reflexivity.
+  - cbn [fw_err fw_out]. f_equal. cbn [app]. rewrite <- !app_assoc, ?app_nil_r. reflexivity.
+Qed.
+
+(* create -> encode -> decode for the records the constructor produces *)
+Lemma avc_confrec_roundtrip sp rest ppss inc :
+  sps_valid sp = true ->
+  (inc = true -> lenN (nalu_sps sp :: rest) < 32 /\ lenN ppss < 256
+                 /\ forallb ps_ok (nalu_sps sp :: rest) = true /\ forallb ps_ok ppss = true) ->
+  let spss := nalu_sps sp :: rest in
+  let x := confrec_of_sps sp spss ppss inc in
+  exists a bs,
+    create_confrec_br spss ppss inc = Ok a
+    /\ encode_confrec a = Ok bs /\ bs = ser_confrec x /\ confrec_size a = lenN bs
+    /\ decode_confrec bs = Ok (expected_confrec x)
+    /\ (has_trailer (profile_idc sp) = true -> decode_confrec bs = Ok a).
+Proof.
+  intros Hv Hinc. cbv zeta.
+  set (spss := nalu_sps sp :: rest). set (x := confrec_of_sps sp spss ppss inc).
+  assert (Hx : confrec_syntax_valid x = true).
+  { pose proof (eff_chroma_le3 sp Hv) as Hc. pose proof (compat_byte_lt sp) as Hcb.
+    unfold sps_valid in Hv. split_all.
+    assert (Hd : (if has_chroma_block (profile_idc sp) then bit_depth_luma_minus8 sp else 0) <= 6
+                 /\ (if has_chroma_block (profile_idc sp) then bit_depth_chroma_minus8 sp else 0) <= 6).
+    { destruct (has_chroma_block (profile_idc sp)); [split_all; lia | lia]. }
+    destruct Hd as [Hd1 Hd2].
+    unfold confrec_syntax_valid, x, confrec_of_sps. cbv zeta.
+    cbn [AVCProfileIndication profile_compatibility AVCLevelIndication sequenceParameterSetNALUnits
+         pictureParameterSetNALUnits chroma_format cr_bit_depth_luma_minus8 cr_bit_depth_chroma_minus8].
+    destruct inc.
+    - destruct (Hinc eq_refl) as (H1 & H2 & H3 & H4). fold spss in H1, H3.
+      rewrite H3, H4. repeat (apply andb_true_intro; split); try reflexivity; lia.
+    - repeat (apply andb_true_intro; split); try reflexivity; lia. }
+  exists (expected_created sp spss ppss inc), (ser_confrec x).
+  assert (Hs : syntax_of (expected_created sp spss ppss inc) = x) by reflexivity.
+  destruct (avc_confrec_encode (expected_created sp spss ppss inc)) as [He Hz];
+    [rewrite Hs; exact Hx | reflexivity | reflexivity |].
+  rewrite Hs in He, Hz. rewrite <- (ser_confrec_eq x Hx) in He, Hz.
+  split; [apply avc_confrec_create; exact Hv|].
+  split; [exact He|]. split; [reflexivity|]. split; [exact Hz|].
+  split; [apply avc_confrec_decode; exact Hx|].
+  intros Ht. rewrite (avc_confrec_decode x Hx). f_equal.
+  unfold expected_confrec, expected_created. cbv zeta.
+  replace (has_trailer (AVCProfileIndication x)) with true by (symmetry; exact Ht).
+  reflexivity.
+Qed.
